@@ -29,6 +29,10 @@ def main():
         print("patch does not apply:", ap.stderr)
         sys.exit(2)
     results = {}
+    import shutil
+    ev_backup = os.path.join(ROOT, "work", "evidence-backup")
+    shutil.rmtree(ev_backup, ignore_errors=True)
+    shutil.copytree(os.path.join(ROOT, "evidence"), ev_backup)
     try:
         for c in checks:
             p = subprocess.run([os.path.join(ROOT, "check"), c, "--tier", tier], cwd=ROOT, capture_output=True, text=True,
@@ -38,6 +42,9 @@ def main():
             results[c] = {"exit": p.returncode, "signatures": sigs[:8], "inconclusive": incon[:1]}
             print(f"{c} exit={p.returncode} " + (" | ".join(sigs[:4]) if sigs else (incon[0][:200] if incon else "held")))
     finally:
+        # evidence written while a seeded change was applied must not replace the evidence of the unchanged tree
+        shutil.rmtree(os.path.join(ROOT, "evidence"), ignore_errors=True)
+        shutil.copytree(ev_backup, os.path.join(ROOT, "evidence"))
         subprocess.run(["git", "-C", "/repo", "checkout", "--", "."], check=True)
         subprocess.run(["git", "-C", "/repo", "clean", "-fdq", "--", "zeep-lib/src", "zeep/src"], check=False)
     return results
